@@ -119,6 +119,13 @@ class _Fit(flow.Analysis):
                isinstance(l.left, ast.Constant) and l.left.value == '%%%s' and \
                isinstance(l.right, ast.Name) and l.right.id == self.fmtvar:
                 return GE
+        # ('%%*.*%s' % typ) % (width, prec, val): the star width makes the result at least `width` wide
+        if isinstance(e, ast.BinOp) and isinstance(e.op, ast.Mod) and isinstance(e.right, ast.Tuple) and e.right.elts \
+           and self.is_width(e.right.elts[0], d):
+            l = e.left
+            lit = l.left if isinstance(l, ast.BinOp) and isinstance(l.op, ast.Mod) else l
+            if isinstance(lit, ast.Constant) and isinstance(lit.value, str) and lit.value.lstrip('%').startswith('*'):
+                return GE
         if isinstance(e, ast.Call):
             r = self.helper_ok(e, d)
             if r is not None:
@@ -226,7 +233,7 @@ def analyse_helper(prog, finfo, width_param, depth=0):
     """True if every normal return of the helper returns a string whose length
     equals the parameter width_param (other paths raise)."""
     if depth > 3:
-        return False, 'helper nesting too deep'
+        return UNK, 'helper nesting too deep'
 
     def is_width(e, d):
         return isinstance(e, ast.Name) and (e.id == width_param or d.get('#w:' + e.id))
@@ -238,14 +245,18 @@ def analyse_helper(prog, finfo, width_param, depth=0):
     an.fmtvar, an.listvar, an.appends = '__none__', '__none__', []
     out = flow.run(an, finfo.node.body, frozenset())
     if out.fall is not None:
-        return False, 'a path falls off the end of %s (returns None)' % finfo.short
+        return UNK, 'a path falls off the end of %s (returns None)' % finfo.short
+    worst = EQ
+    order = {EQ: 0, GE: 1, GT: 2, UNK: 3}
     for node, st in out.rets:
         if node.value is None:
-            return False, 'bare return in %s line %d' % (finfo.short, node.lineno)
+            return UNK, 'bare return in %s line %d' % (finfo.short, node.lineno)
         if st is None: continue
         c = an.classify(node.value, st)
+        if order[c] > order[worst]: worst = c
         if c != EQ:
-            return False, 'return at %s line %d yields a string with %s' % (finfo.short, node.lineno, c)
+            why = 'return at %s line %d yields a string with %s' % (finfo.short, node.lineno, c)
+    if worst != EQ: return worst, why
     return True, '%d returns all len==w, other exits raise' % len(out.rets)
 
 
@@ -306,7 +317,7 @@ def rule_fit(run):
         if wparam is None: return None
         ok, why = analyse_helper(prog, cand, wparam)
         helper_notes.append('%s(width=%s): %s' % (cand.short, wparam, why))
-        return EQ if ok else UNK
+        return EQ if ok is True else ok
 
     an = _Fit(prog, fi, is_width, helper_ok)
     an.fmtvar, an.listvar, an.appends = fmtvar, listvar, []
